@@ -13,6 +13,26 @@ use serde_json::{json, Value};
 
 const P: &str = "C18";
 
+/// identifiers and member names used elsewhere in CTAP / WebAuthn / the IANA registries
+const VOCABULARY: [&str; 118] = [
+    // getInfo option ids
+    "rk", "up", "uv", "plat", "clientPin", "credMgmt", "credentialMgmtPreview", "largeBlobs", "pinUvAuthToken", "ep", "bioEnroll", "userVerificationMgmtPreview", "uvBioEnroll", "authnrCfg", "uvAcfg", "noMcGaPermissionsWithClientPin", "setMinPINLength", "makeCredUvNotRqd", "alwaysUv",
+    // extension identifiers (CTAP and the WebAuthn registry)
+    "credProtect", "credBlob", "hmac-secret", "hmac-secret-mc", "largeBlobKey", "largeBlob", "minPinLength", "thirdPartyPayment", "payment", "prf", "credProps", "appid", "appidExclude", "uvm", "txAuthSimple", "txAuthGeneric", "authnSel", "exts", "uvi", "loc", "biometricPerfBounds", "devicePubKey",
+    // transports
+    "usb", "nfc", "ble", "smart-card", "hybrid", "internal", "cable", "lightning", "bt",
+    // versions
+    "U2F_V2", "U2F_V1", "U2F", "FIDO_2_0", "FIDO_2_1_PRE", "FIDO_2_1", "FIDO_2_2", "FIDO_2_3", "FIDO_2", "FIDO2", "FIDO_2_1_POST", "CTAP2", "CTAP2_1", "CTAP1",
+    // attestation statement formats (IANA) and conveyance words
+    "packed", "tpm", "android-key", "android-safetynet", "fido-u2f", "none", "apple", "compound", "self", "direct", "indirect", "enterprise", "basic", "attca", "anonca",
+    // member names
+    "versions", "extensions", "aaguid", "options", "maxMsgSize", "pinUvAuthProtocols", "transports", "algorithms", "certifications", "attestationFormats", "fmt", "authData", "attStmt", "epAtt", "alg", "sig", "x5c", "id", "type", "name", "displayName", "icon", "public-key", "publicKey", "rpId",
+    // certification names
+    "FIDO", "CC-EAL", "FIPS-CMVP-2", "FIPS-CMVP-3", "FIPS-CMVP-2-PHY", "FIPS-CMVP-3-PHY",
+    // serde / Rust-side words
+    "None", "Packed", "Nfc", "Usb", "CredProtect", "HmacSecret", "LargeBlobKey", "ThirdPartyPayment",
+];
+
 /// string enumerations: (name, specification spellings)
 const STRING_ENUMS: [(&str, &[&str]); 4] = [("Version", &VERSIONS), ("Extension", &EXTENSIONS), ("Transport", &TRANSPORTS), ("AttestationStatementFormat", &FORMATS)];
 
@@ -121,6 +141,13 @@ fn neighbours(table: &[&str]) -> Vec<String> {
                     out.push(t3.join(&sep.to_string()));
                 }
             }
+        }
+        // long strings (scratch buffers, fixed-size folding): padded, doubled lower case, repeated
+        for n in [15usize, 16, 17, 31, 32, 33, 64, 255, 256, 1000] {
+            out.push(format!("{}{}", w, "x".repeat(n)));
+            out.push(format!("{}{}", "Y".repeat(n), w));
+            out.push("q".repeat(n));
+            out.push(w.to_lowercase().repeat(n / w.len() + 2));
         }
         // non-ASCII and embedded NUL variants
         out.push(format!("{}\u{0}", w));
@@ -337,6 +364,20 @@ pub fn run(ctx: &'static Ctx) {
         for s in neighbours(table) {
             cases.push((i, s));
         }
+        // the protocol's other vocabulary (option ids, member names, registered WebAuthn / IANA
+        // identifiers) and every prefix of a valid spelling continued by a common ending
+        for w in VOCABULARY {
+            cases.push((i, w.to_string()));
+            cases.push((i, w.to_uppercase()));
+            cases.push((i, w.to_lowercase()));
+        }
+        for w in table.iter() {
+            for k in 1..=w.len() {
+                for end in ["s", "S", "Key", "Keys", "key", "ID", "Id", "_PRE", "_V2", "_0", "_1", "_2", "-key", "-secret", "Protect", "Payment", "Blob", "Blobs", "ed", "-u2f", "1", "2"] {
+                    cases.push((i, format!("{}{}", &w[..k], end)));
+                }
+            }
+        }
         // spellings of the other enumerations must be rejected too
         for (j, (_, other)) in STRING_ENUMS.iter().enumerate() {
             if i != j {
@@ -454,6 +495,72 @@ pub fn run(ctx: &'static Ctx) {
             l.fail(ctx, idx, v, || json!({"kind": "byte", "byte": idx}));
         }
     });
+    // the U2F control byte as the APDU parser takes it from P1: all 256 values, every encoding
+    {
+        let mut data = vec![0x11u8; 32];
+        data.extend(vec![0x22u8; 32]);
+        data.push(16);
+        data.extend(vec![0x33u8; 16]);
+        let dr = &data;
+        sweep(ctx, "control byte through the APDU parser", 256 * 6, "class 0, instruction 2, every P1, a valid authenticate body in each of 6 length encodings: accepted iff P1 in {3, 7, 8} and delivered as that control byte", move |idx, l| {
+            let p1 = (idx / 6) as u8;
+            let enc = (idx % 6) as u8;
+            let Some(body) = super::c08::body(dr, enc) else { return };
+            let mut bytes = vec![0x00, 0x02, p1, 0x00];
+            bytes.extend_from_slice(&body);
+            l.nontrivial += 1;
+            l.bump(if matches!(p1, 3 | 7 | 8) { "listed number" } else { "unlisted number" });
+            let mut v = super::c08::check_view(0, 2, p1, dr, &bytes);
+            if !v.ok {
+                v.signature = format!("{}|ControlByte|through-apdu-parser", P);
+                l.fail(ctx, idx, v, || json!({"kind": "control-apdu", "apdu": hex(&bytes), "p1": p1}));
+            }
+        });
+    }
+    // every list of identifiers up to the member's capacity inside a GetInfo response: each
+    // identifier keeps its spelling next to every other one (decode + re-encode = identity)
+    {
+        let mut members: Vec<(u64, &'static [&'static str], usize)> = vec![(1, &VERSIONS, 4), (2, &EXTENSIONS, 4), (9, &TRANSPORTS, 4)];
+        if cfg!(feature = "g") {
+            members.push((22, &FORMATS, 2));
+        }
+        let mut lists: Vec<(u64, Vec<&'static str>)> = Vec::new();
+        for (key, table, cap) in &members {
+            let n = table.len();
+            for len in 0..=*cap {
+                for mut r in 0..n.pow(len as u32) {
+                    let mut v = Vec::new();
+                    for _ in 0..len {
+                        v.push(table[r % n]);
+                        r /= n;
+                    }
+                    lists.push((*key, v));
+                }
+            }
+        }
+        let lr = &lists;
+        sweep(ctx, "identifier lists inside a GetInfo response", lists.len() as u64, "every list of length <= capacity over the table's spellings as versions / extensions / transports / attestationFormats, decoded and re-encoded through get_info::Response", move |idx, l| {
+            let (key, list) = &lr[idx as usize];
+            let mut m = vec![(V::U(1), V::A(vec![V::t("FIDO_2_0")])), (V::U(3), V::B(vec![7; 16]))];
+            let lv = V::A(list.iter().map(|s| V::t(s)).collect());
+            if *key == 1 {
+                m[0].1 = lv;
+            } else {
+                m.push((V::U(*key), lv));
+            }
+            m.sort_by_key(|e| e.0.as_u64());
+            let bytes = encode(&V::M(m));
+            l.nontrivial += 1;
+            l.bump("identifier list");
+            match super::c15::roundtrip("getInfo.Response", &bytes) {
+                super::c15::RT::Done { bytes: b, same_value: true } if b == bytes => {}
+                other => {
+                    let v = Verdict::fail(format!("{}|identifier-list|member-{}", P, key), hex(&bytes), format!("{:?}", other));
+                    l.fail(ctx, idx, v, || json!({"kind": "identifier-list", "bytes": hex(&bytes), "key": key}));
+                }
+            }
+        });
+    }
     sweep(ctx, "named constants", 1, "55 status codes, 6 permission bits, 21 numeric variants, 12 spellings against the specification tables; distinctness", move |idx, l| {
         l.nontrivial += 1;
         for v in check_named() {
@@ -471,6 +578,26 @@ pub fn replay(case: &Value) -> Verdict {
         Some("spelling") => {
             let (name, table) = *STRING_ENUMS.iter().find(|e| e.0 == case["enum"].as_str().unwrap()).unwrap();
             check_string(name, table, case["spelling"].as_str().unwrap())
+        }
+        Some("control-apdu") => {
+            let bytes = crate::refcbor::unhex(case["apdu"].as_str().unwrap());
+            let p1 = case["p1"].as_u64().unwrap() as u8;
+            let mut data = vec![0x11u8; 32];
+            data.extend(vec![0x22u8; 32]);
+            data.push(16);
+            data.extend(vec![0x33u8; 16]);
+            let mut v = super::c08::check_view(0, 2, p1, &data, &bytes);
+            if !v.ok {
+                v.signature = format!("{}|ControlByte|through-apdu-parser", P);
+            }
+            v
+        }
+        Some("identifier-list") => {
+            let bytes = crate::refcbor::unhex(case["bytes"].as_str().unwrap());
+            match super::c15::roundtrip("getInfo.Response", &bytes) {
+                super::c15::RT::Done { bytes: b, same_value: true } if b == bytes => Verdict::pass(),
+                other => Verdict::fail(format!("{}|identifier-list|member-{}", P, case["key"]), hex(&bytes), format!("{:?}", other)),
+            }
         }
         Some("spelling-bytes") => {
             let name = case["enum"].as_str().unwrap();
